@@ -1,6 +1,7 @@
 import Xp.Base.JsonIO
 import Xp.Model.C04
 import Xp.Model.C04Conn
+import Xp.Model.C04Compose
 namespace Xp.C04
 open Lean (Json)
 open Xp.IOx
@@ -10,10 +11,13 @@ open Xp.IOx
 inductive Cond where
   | always | hasExtra (k : String) | lacksExtra (k : String) | ctxHas (k : String) | ctxLacks (k : String)
   | ctxEq (k v : String) | desiredHas (k : String) | observedHas (k : String)
+  | xrConnHas (k : String) | obsConnHas (rname k : String) | credHas (name k : String) | credVal (name v : String)
+  | hasInput
 
 inductive Act where
   | add (r : Res) | del (rname : String) | ctx (k v : String) | delctx (k : String)
   | require (k : String) (s : Sel) | result (r : Result) | cond (c : FnCond) | xrReady (b : Bool) | error
+  | ttl     -- sets response meta.ttl: Compose never reads it
 
 structure Rule where
   cond : Cond
@@ -22,7 +26,8 @@ structure Rule where
 def setKV {β : Type} (l : List (String × β)) (k : String) (v : β) : List (String × β) :=
   if l.any (·.1 == k) then l.map (fun p => if p.1 == k then (k, v) else p) else l ++ [(k, v)]
 
-def holds (c : Cond) (req : Request) : Bool :=
+def holds (c : Cond) (xreq : XRequest) : Bool :=
+  let req := xreq.base
   match c with
   | .always => true
   | .hasExtra k => match req.extra.lookup k with | some (some l) => !l.isEmpty | _ => false
@@ -32,6 +37,11 @@ def holds (c : Cond) (req : Request) : Bool :=
   | .ctxEq k v => req.ctx.lookup k == some v
   | .desiredHas k => req.desired.any (·.rname == k)
   | .observedHas k => req.observed.any (·.rname == k)
+  | .xrConnHas k => (xreq.xrConn.lookup k).isSome
+  | .obsConnHas n k => match xreq.obsConn.lookup n with | some d => (d.lookup k).isSome | none => false
+  | .credHas n k => match xreq.credData.lookup n with | some d => (d.lookup k).isSome | none => false
+  | .credVal n v => match xreq.credData.lookup n with | some d => d.any (·.2 == v) | none => false
+  | .hasInput => xreq.hasInput
 
 def applyAct (rsp : Response) : Act → Option Response
   | .add r => some { rsp with desired := (rsp.desired.filter (·.rname != r.rname)) ++ [r] }
@@ -43,9 +53,10 @@ def applyAct (rsp : Response) : Act → Option Response
   | .cond c => some { rsp with conds := rsp.conds ++ [c] }
   | .xrReady b => some { rsp with xrReady := some b }
   | .error => none
+  | .ttl => some rsp
 
-def evalRules (rules : List Rule) (req : Request) : Option Response := do
-  let mut rsp : Response := ⟨req.desired, req.xrReady, req.ctx, [], [], []⟩
+def evalRules (rules : List Rule) (req : XRequest) : Option Response := do
+  let mut rsp : Response := ⟨req.base.desired, req.base.xrReady, req.base.ctx, [], [], []⟩
   for r in rules do
     if holds r.cond req then
       for a in r.acts do
@@ -57,6 +68,8 @@ def condOf (j : Json) : Cond :=
   match str j "t" with
   | "hasExtra" => .hasExtra k | "lacksExtra" => .lacksExtra k | "ctxHas" => .ctxHas k | "ctxLacks" => .ctxLacks k
   | "ctxEq" => .ctxEq k (str j "v") | "desiredHas" => .desiredHas k | "observedHas" => .observedHas k
+  | "xrConnHas" => .xrConnHas k | "obsConnHas" => .obsConnHas k (str j "v") | "credHas" => .credHas k (str j "v")
+  | "credVal" => .credVal k (str j "v") | "hasInput" => .hasInput
   | _ => .always
 
 def kvsOf (j : Json) (k : String) : List (String × String) :=
@@ -75,8 +88,9 @@ def actOf (j : Json) : Act :=
   | "delctx" => .delctx (str j "k")
   | "require" => .require (str j "k") (selOf (obj j "sel"))
   | "result" => .result ⟨sevOf (str j "sev"), str j "msg", bool j "claim"⟩
-  | "cond" => .cond ⟨str j "k", str j "status", str j "reason", bool j "claim"⟩
+  | "cond" => .cond ⟨str j "k", str j "status", str j "reason", bool j "claim", str j "msg"⟩
   | "xrReady" => .xrReady (bool j "ready")
+  | "ttl" => .ttl
   | _ => .error
 
 def ruleOf (j : Json) : Rule := ⟨condOf (obj j "if"), (arr j "do").map actOf⟩
@@ -86,7 +100,11 @@ def resJson (r : Res) : Json := Json.mkObj [("rname", .str r.rname), ("kind", .s
 
 def sortRes (l : List Res) : List Res := l.mergeSort (fun a b => a.rname ≤ b.rname)
 
-def reqJson (i : Nat) (fn : String) (r : Request) : Json := Json.mkObj [
+def kvJson (d : KV) : Json := Json.arr ((d.mergeSort (fun a b => a.1 ≤ b.1)).map fun p => Json.arr #[.str p.1, .str p.2]).toArray
+
+def reqJson (i : Nat) (fn : String) (x : XRequest) : Json :=
+  let r := x.base
+  Json.mkObj [
   ("step", .num i), ("fn", .str fn),
   ("observed", Json.arr ((sortRes r.observed).map resJson).toArray),
   ("desired", Json.arr ((sortRes r.desired).map resJson).toArray),
@@ -95,26 +113,15 @@ def reqJson (i : Nat) (fn : String) (r : Request) : Json := Json.mkObj [
       ("key", .str p.1), ("nil", .bool p.2.isNone),
       ("names", Json.arr (((p.2.getD []).mergeSort (· ≤ ·)).map Json.str).toArray)]).toArray),
   ("input", .str r.input),
+  ("hasInput", .bool x.hasInput),
+  ("meta", .str x.metaTag),
+  ("xrName", .str x.xrName),
+  ("xrConn", kvJson x.xrConn),
+  ("obsConn", Json.arr ((x.obsConn.mergeSort (fun a b => a.1 ≤ b.1)).map fun p => Json.mkObj [
+      ("rname", .str p.1), ("data", kvJson p.2)]).toArray),
   ("creds", Json.arr ((r.creds.mergeSort (fun a b => a.1 ≤ b.1)).map fun p => Json.mkObj [
-      ("name", .str p.1), ("keys", Json.arr ((p.2.mergeSort (· ≤ ·)).map Json.str).toArray)]).toArray)]
-
-structure O where
-  kind : String
-  name : String
-  annot : String
-  ctrl : String
-  content : Nat
-
-/-- ObserveComposedResources, pure: none = error (annotation-less resource) -/
-def observe (refs : List (String × String)) (objs : List O) : Option (List Res) :=
-  refs.foldlM (init := []) fun acc r =>
-    if r.2 == "" then some acc else
-    match objs.find? (fun o => o.kind == r.1 && o.name == r.2) with
-    | none => some acc
-    | some o =>
-      if o.ctrl == "other" then some acc
-      else if o.annot == "" then none
-      else some ((acc.filter (·.rname != o.annot)) ++ [⟨o.annot, o.kind, o.name, o.content, false⟩])
+      ("name", .str p.1), ("keys", Json.arr ((p.2.mergeSort (· ≤ ·)).map Json.str).toArray),
+      ("data", kvJson ((x.credData.lookup p.1).getD []))]).toArray)]
 
 open Xp.C04Conn in
 def connHandler : Handler := fun scn => do
@@ -127,6 +134,7 @@ def connHandler : Handler := fun scn => do
     let mut target := ""
     let mut err := false
     let mut closed := 0
+    let mut got := ""
     match str op "op" with
     | "set" =>
       fns := strs op "fns"
@@ -134,50 +142,69 @@ def connHandler : Handler := fun scn => do
       revs := ((arr op "revs").map fun j => (⟨str j "name", str j "fn", bool j "active", str j "endpoint"⟩ : Rev)).mergeSort
         (fun a b => a.name ≤ b.name)
     | "run" =>
-      let (t, c') := getConn revs conns (str op "name")
+      let (t, c') := getConnF (bool op "listFail") revs conns (str op "name")
       conns := c'
       target := t.getD ""
       err := t.isNone
       -- model-side monitor: the target is the endpoint of an active revision of that function
       if let some ep := t then
         if !(revs.any fun r => r.fn == str op "name" && r.active && r.endpoint == ep) then ok := false
+    | "call" =>
+      -- PackagedFunctionRunner.RunFunction: getClientConn, then the RPC to the connection's target
+      let (t, c') := if bool op "listFail" then (none, conns) else runPackaged revs conns (str op "name")
+      conns := c'
+      got := (t.bind delivered).getD ""
+      target := got
+      err := got == ""
+      if let some ep := t then
+        if !(revs.any fun r => r.fn == str op "name" && r.active && r.endpoint == ep) then ok := false
     | _ =>
-      let (n, c') := gc fns conns
-      closed := n
+      let (n, c') := gcF (bool op "listFail") fns conns
+      closed := n.getD 0
+      err := n.isNone
       conns := c'
     steps := steps.push <| Json.mkObj [("target", .str target), ("err", .bool err), ("closed", .num closed),
+      ("got", .str got), ("beta", .bool (servesOnlyBeta got)),
       ("conns", Json.arr ((conns.mergeSort fun a b => a.1 ≤ b.1).map fun p => Json.arr #[.str p.1, .str p.2]).toArray)]
   return (Json.mkObj [("steps", Json.arr steps)], ok, if ok then "" else "C04:sent-to-non-active-endpoint")
 
 def handler : Handler := fun scn => do
   if bool scn "conn" then return ← connHandler scn
   let refs := (arr scn "refs").map fun j => (str j "kind", str j "name")
-  let objs := (arr scn "objs").map fun j => (⟨str j "kind", str j "name", str j "annot", str j "ctrl", nat j "content"⟩ : O)
+  let objConn := (arr scn "objConn").map fun j => (str j "obj", str j "secret")
+  let objs := (arr scn "objs").map fun j =>
+    (⟨str j "kind", str j "name", str j "annot", str j "ctrl", nat j "content", objConn.lookup (str j "name")⟩ : CObj)
   let cluster := (arr scn "cluster").map fun j => (⟨str j "kind", str j "name", kvsOf j "labels"⟩ : ClusterObj)
-  let secrets := (arr scn "secrets").map fun j => (str j "name", strs j "keys")
+  -- the value of key k of Secret n is "n:k" (harness/main/c04.go)
+  let secrets : SecretStore :=
+    ⟨(arr scn "secrets").map fun j => (str j "name", ((strs j "keys").mergeSort (· ≤ ·)).map fun k => (k, s!"{str j "name"}:{k}")),
+     strs scn "failGet"⟩
   let stepsJ := arr scn "steps"
-  let steps : List Step := stepsJ.zipIdx.map fun (j, i) =>
-    { name := s!"s{i}", fn := evalRules ((arr j "rules").map ruleOf), input := str j "input",
-      creds := (arr j "creds").map fun c => (str c "name", secrets.lookup (str c "secret")) }
+  let xsteps : List XStep := stepsJ.zipIdx.map fun (j, i) =>
+    { name := s!"s{i}", fn := evalRules ((arr j "rules").map ruleOf),
+      input := if bool j "badInput" then some none else if str j "input" == "" then none else some (some (str j "input")),
+      creds := (arr j "creds").map fun c => ⟨str c "name", str c "src" != "none", if bool c "noRef" then none else some (str c "secret")⟩ }
   let fnNames := stepsJ.map fun j => str j "fn"
   let emptyOut (err : Bool) := Json.mkObj [("reqs", Json.arr #[]), ("err", .bool err), ("events", Json.arr #[]),
       ("conds", Json.arr #[]), ("desired", Json.arr #[]), ("xrReady", .str "unset"), ("writes", .num 0)]
-  match observe refs objs with
-  | none => return (emptyOut true, true, "")
-  | some observed =>
-    let r := runPipeline cluster observed steps 0 initState
+  let w : XWorld := ⟨"xr", if str scn "xrConn" == "" then none else some (str scn "xrConn"), refs, objs, secrets, cluster⟩
+  match composeX w xsteps with
+  | .observeFailed => return (emptyOut true, true, "")
+  | .ran o r =>
+    let observed := o.resources.map (·.res)
     let (st, err, surfaced) := match r with
       | .done st => (st, false, true)
       | .failed st fatal => (st, true, fatal)
     let evJson (e : Ev) : Json := match e with
       | .mk t m c d => Json.mkObj [("type", .str t), ("msg", .str m), ("claim", .bool c), ("step", .str d)]
-    let condJson (c : FnCond) : Json := Json.mkObj [("type", .str c.type),
-      ("status", .str (if c.status == "True" || c.status == "False" then c.status else "Unknown")),
-      ("reason", .str c.reason), ("claim", .bool c.claim)]
+    let condJson (c0 : FnCond) : Json :=
+      let c := convCond c0
+      Json.mkObj [("type", .str c.type), ("status", .str c.status),
+        ("reason", .str c.reason), ("claim", .bool c.claim), ("msg", .str c.message)]
     let undesired := observed.filter fun o => !(st.desired.any (·.rname == o.rname))
     let writes := if err then 0 else 2 * undesired.length + 1 + st.desired.length
     let out := Json.mkObj [
-      ("reqs", Json.arr (st.trace.map fun (i, rq) => reqJson i (fnNames.getD i "") rq).toArray),
+      ("reqs", Json.arr ((xtrace secrets o xsteps st.trace).map fun (i, rq) => reqJson i (fnNames.getD i "") rq).toArray),
       ("err", .bool err),
       ("events", Json.arr (if surfaced then st.events.map evJson else []).toArray),
       ("conds", Json.arr (if surfaced then st.conds.map condJson else []).toArray),
@@ -185,7 +212,7 @@ def handler : Handler := fun scn => do
       ("xrReady", .str (if err then "unset" else match st.xrReady with | some true => "true" | some false => "false" | none => "unset")),
       ("writes", .num writes)]
     -- model-side monitor (C03): a failed pipeline implies zero writes; rounds per step bounded
-    let perStep := (List.range steps.length).map fun i => (st.trace.filter (·.1 == i)).length
+    let perStep := (List.range xsteps.length).map fun i => (st.trace.filter (·.1 == i)).length
     let ok := perStep.all (· ≤ Xp.Gen.maxRequirementsIterations + 1)
     return (out, ok, if ok then "" else "C04:too-many-rounds")
 
